@@ -175,9 +175,18 @@ impl GmWorld {
         let (start, len, page, rid) = (kv.n("start"), kv.us("len"), kv.us("page").max(1), kv.n("rid"));
         #[cfg(not(feature = "xen"))]
         let mapping = {
-            let bm = AtomicBitmap::new(len, NonZeroUsize::new(page).unwrap());
+            let bm = crate::bitmap::new_bitmap(len, page);
             let mut b = MmapRegionBuilder::new_with_bitmap(len, bm).with_mmap_prot(libc::PROT_READ | libc::PROT_WRITE);
-            if kv.s("back") == "file" {
+            if kv.s("back") == "file" && kv.n("foff") == 4096 {
+                // every such region maps the same range start of ONE long-lived descriptor (privately, so that the regions
+                // do not alias each other's bytes): their file ranges overlap although their guest ranges do not
+                thread_local! { static ONE_FD: Arc<std::fs::File> = Arc::new(crate::streams::tmpfile_pub()); }
+                let f = ONE_FD.with(|f| f.clone());
+                if f.metadata().map(|m| m.len()).unwrap_or(0) < 4096 + len as u64 {
+                    f.set_len(4096 + len as u64).unwrap();
+                }
+                b = b.with_file_offset(FileOffset::from_arc(f, 4096)).with_mmap_flags(libc::MAP_NORESERVE | libc::MAP_PRIVATE);
+            } else if kv.s("back") == "file" {
                 let f = crate::streams::tmpfile_pub();
                 f.set_len(kv.n("foff") + len as u64).unwrap();
                 b = b.with_file_offset(FileOffset::new(f, kv.n("foff"))).with_mmap_flags(libc::MAP_NORESERVE | libc::MAP_SHARED);
@@ -331,6 +340,12 @@ impl GmWorld {
     /// after every op: every region's bytes equal the oracle's flat array (frame), dirty bits sound and precise
     fn post(&mut self, rec: &mut Rec, op: &str, line: &str) {
         self.xen_post(rec, op, line);
+        // every mapping — a region's, or the temporary window of an on-demand access — is released once (src/interpose.rs)
+        let (dbl, at) = crate::interpose::take_double_unmaps();
+        if dbl > 0 {
+            rec.fail("C12", &format!("{}/mapping-unmapped-twice", op), &format!("{} range at {:#x} released {} more time(s)", line, at, dbl));
+            rec.fail("C17", &format!("{}/window-unmapped-twice", op), &format!("{} range at {:#x} released {} more time(s)", line, at, dbl));
+        }
         let rids: Vec<u64> = self.regs.keys().copied().collect();
         for rid in rids {
             let r = self.regs[&rid].clone();
@@ -1278,7 +1293,8 @@ pub fn run(rec: &mut Rec, rng: &mut Rng, n_ops: usize, mode: &str) {
                         3 => { let (s, _) = *rng.pick(&lay); (s.saturating_sub(1 + rng.below(3)), 1usize) }
                         _ => (rng.boundary(&marks), 1 + rng.below(64) as usize),
                     };
-                    let out = g.region_line(&format!("g.insert d={} m={}", d, mi), s, l, *rng.pick(&[1usize, 64, 4096]), false, 0);
+                    let shared_fd = rng.chance(1, 3);   // file ranges of such regions overlap one another (see make_region)
+                    let out = g.region_line(&format!("g.insert d={} m={}", d, mi), s, l, *rng.pick(&[1usize, 64, 4096]), shared_fd, 4096);
                     if out.starts_with("ok") {
                         live.push(d);
                     }
